@@ -33,6 +33,8 @@ def run(R):
         r4(R, tus)
     if R.want("C11.R6"):
         r6(R)
+    if R.want("C11.R7"):
+        r7(R)
     if R.want("C11.R5"):
         R.rule("C11.R5", "OpenMP constructs of connectedpixels.c (relabel loop, clean_mask) satisfy the data-sharing discipline (E2)")
         omp.report(R, "C11.R5", tus, select=lambda f: f.file == CP, floor=4)
@@ -691,6 +693,57 @@ def r6(R):
                         "the label buffer %s filled by %s is shifted without a 'label > 0' mask: pixels that are not above the threshold "
                         "(label 0) receive a peak label" % (bsrc, name))
     R.floor("C11.R6", 3)
+
+
+def r7(R):
+    """A label buffer kept on the object (self.blim) still holds the previous frame's labels when a call returns without filling
+    it: every normal exit of a function that hands such a buffer to a labelling kernel passes through a kernel call on that buffer or
+    a whole-buffer zero fill.  Must-pass-through on the statement flow graph of the function."""
+    R.rule("C11.R7", "a label image kept on the object is (re)written on every path of the function that labels a frame: no normal exit "
+                     "is reachable without a labelling-kernel call on that buffer or a whole-buffer zero fill (else pixels that are not "
+                     "above the threshold keep the labels of an earlier frame)")
+    nsite = 0
+    for rel in ("ImageD11/sparseframe.py", "ImageD11/labelimage.py"):
+        m = pyfacts.module(R, rel)
+        byfn = {}
+        for name, call in pyfacts.kernel_calls(m.tree, names=set(LABEL_ARG)):
+            fn = m.enclosing_function(call)
+            if fn is None or len(call.args) <= LABEL_ARG[name]:
+                continue
+            bsrc = rootsrc(fn, call.args[LABEL_ARG[name]])
+            if not bsrc.startswith("self."):
+                continue          # a buffer made in this call has no history
+            byfn.setdefault((id(fn), bsrc), [fn, bsrc, []])[2].append((name, call))
+        for fn, bsrc, calls in byfn.values():
+            q = m.qualname(fn)
+            cfg = pyfacts.PyCFG(fn)
+            fills = set()
+            for name, call in calls:
+                n = cfg.node_of(call)
+                R.shape(n is not None, "C11.R7", rel, q, "the statement of the %s call in the flow graph" % name)
+                fills.add(n.id)
+            for st in ast.walk(fn):
+                if pyfacts.zero_fill(st, bsrc):
+                    n = cfg.node_of(st)
+                    if n is not None:
+                        fills.add(n.id)
+            g = cfg.g.copy()
+            g.remove_nodes_from(fills)
+            import networkx as nx
+            nsite += 1
+            bad = cfg.exit.id in g and nx.has_path(g, cfg.entry.id, cfg.exit.id)
+            line, what = calls[0][1].lineno, "fall off the end"
+            if bad:
+                path = nx.shortest_path(g, cfg.entry.id, cfg.exit.id)
+                last = [cfg.nodes[i] for i in path if cfg.nodes[i].k == "stmt" and cfg.nodes[i].node is not None]
+                if last:
+                    line, what = last[-1].node.lineno, pyfacts.src(last[-1].node)[:80]
+            R.check(not bad, "C11.R7", rel, line, q, "exit without labelling %s: %s" % (bsrc, what),
+                    "%s returns on a path that neither calls %s on %s nor zero-fills it: the buffer keeps the labels an earlier frame left "
+                    "there, so pixels that are not above the threshold carry a non-zero label and the count disagrees with the labels used"
+                    % (q, "/".join(sorted(set(n_ for n_, _ in calls))), bsrc),
+                    desc="%s:%s every normal exit passes a kernel call or zero fill of %s" % (rel, q, bsrc))
+    R.floor("C11.R7", 1)
 
 
 def positive_test(e, bsrc):
